@@ -180,3 +180,12 @@ package domain
 //@   ensures  SpecIterOK(i) && ok == i.valid
 //@   ensures  ok ==> stamp < i.currPtr.End && (forall k int :: 0 <= k && k < i.position ==> i.idx.mu.pointers[k].End <= stamp)
 //@   modifies &i.valid, &i.currPtr, &i.position
+
+//@ # ---------------------------------------------------------------- lock discipline (C09)
+//@ guarded_by index.mu.pointers mu
+//@ guarded_by index.persistHead mu
+//@ requires_held index.unprotectedSearch mu R
+//@ requires_held index.afterLast mu R
+//@ requires_held index.beforeFirst mu R
+//@ holds_during index.read mu R
+//@ lock_order index.deleteLock < index.mu
